@@ -84,6 +84,28 @@ def replay(rec):
                 t, v = quiet(ocp.sample, s, grid='control', refine=r)
                 res.append(('C17.c:refined:m%d' % i,) + seq_compare(list(ev(v)), rec['refined'][i]))
                 if i == 0: res.append(('C17.c:refined_t',) + seq_compare(list(ev(t)), rec['times']))
+        # every member of the chain reports its own coefficients on the 'gist' grid: N + (degree) of them, at the Greville points of
+        # its own degree, and their Cox-de Boor evaluation (scipy) is the member's sample on the control grid
+        from scipy.interpolate import BSpline as _BS
+        for i, s in enumerate(chain):
+            try:
+                k = d - i
+                tgi, Ci = quiet(ocp.sample, s, grid='gist')
+                tv = ev(tgi); cv = ev(Ci)
+                nd = np.array(ev(quiet(ocp.sample, s, grid='control')[0]))
+                knots = np.concatenate([[nd[0]] * k, nd, [nd[-1]] * k])
+                want_t = [np.mean(knots[j + 1:j + k + 1]) for j in range(N + k)] if k > 0 else list((nd[1:] + nd[:-1]) / 2)
+                okg = len(tv) == N + k and len(cv) == N + k and np.allclose(tv, want_t, rtol=0, atol=1e-9)
+                det = 'coefficient times %s, Greville points of degree %d %s' % (np.round(tv, 6).tolist(), k, np.round(want_t, 6).tolist())
+                if okg:
+                    pts_ = nd if k > 0 else nd[:-1]
+                    val = _BS(knots if k > 0 else nd, cv, k, extrapolate=False)(pts_)
+                    got = ev(quiet(ocp.sample, s, grid='control')[1])[:len(pts_)]
+                    okg = np.allclose(val, got, rtol=1e-9, atol=1e-9)
+                    det = 'spline of the reported coefficients at the nodes %s, sampled %s' % (np.round(val, 6).tolist(), np.round(got, 6).tolist())
+                res.append(('C17.c:gist:m%d' % i, 'ok' if okg else 'mismatch', det))
+            except Exception as e:
+                res.append(('C17.c:gist:m%d' % i, 'mismatch', "sample(.., grid='gist') of chain member %d fails: %s: %s" % (i, type(e).__name__, (str(e).splitlines() or [''])[-1][:160])))
         # rows: the path constraint at every (refined) grid point, boundary constraints once
         adv = opti.advanced
         g = np.array(ca.Function('g', [vx, vp], [opti.g])(xv, pv)).reshape(-1)
@@ -148,6 +170,55 @@ def mixedchain():
                 want = c1 * tv + c0
                 ok = np.allclose(pv[i_], want, atol=1e-9)
                 res.append(('C10.spline:start:p%d' % (i_ + 1), 'ok' if ok else 'mismatch', 'N=%d %s%s: starting trajectory %s, guess %s' % (N, type(grid).__name__, ' free T' if free else '', np.round(pv[i_], 6).tolist(), np.round(want, 6).tolist())))
+    return res
+
+
+def component_constraint():
+    """C17.c with vector states: a path constraint on a single component of a vector state (and one mixing components of two
+    vector states) gives the same NLP rows as the same problem written with scalar states.  Both problems are probed at the same
+    spline coefficients (located through grid='gist' of every component)."""
+    res = []
+    for N, r in ((3, 1), (4, 2)):
+        cl = 'C17.c:component:N%d:r%d' % (N, r)
+        try:
+            def build(vec):
+                ocp = Ocp(t0=0.5, T=2.0)
+                if vec:
+                    p = ocp.state(2); v = ocp.state(2); a = ocp.control(2)
+                    ocp.set_der(p, v); ocp.set_der(v, a)
+                    P = [p[0], p[1]]; V = [v[0], v[1]]; A = [a[0], a[1]]
+                else:
+                    P = [ocp.state(), ocp.state()]; V = [ocp.state(), ocp.state()]; A = [ocp.control(), ocp.control()]
+                    for i in range(2): ocp.set_der(P[i], V[i]); ocp.set_der(V[i], A[i])
+                ocp.subject_to(V[1] <= 0.9, refine=r)
+                ocp.subject_to(-4 <= (P[0] + 2 * V[1] - A[0] <= 3))
+                ocp.subject_to(ocp.at_t0(P[1]) == 0.25); ocp.subject_to(ocp.at_tf(V[0]) == -1)
+                ocp.add_objective(ocp.integral(A[0] ** 2 + A[1] ** 2, grid='control') + ocp.at_tf(P[1]) ** 2)
+                ocp.solver('ipopt'); ocp.method(SplineMethod(N=N))
+                quiet(lambda: ocp._transcribed)
+                return ocp, P
+            out = []
+            rng = np.random.RandomState(11)
+            coef = rng.uniform(-1, 1, size=(2, N + 2))
+            for vec in (True, False):
+                ocp, P = build(vec)
+                opti, vx, vp = _inputs(ocp)
+                nx = vx.numel(); pv = np.array(opti.debug.value(vp, opti.initial())).reshape(-1)
+                pts = [(np.linspace(0.5, 1.5, nx), pv), (np.linspace(-1.5, -0.5, nx), pv)]
+                xv = np.zeros(nx)
+                for i in range(2):
+                    loc = locate(quiet(ocp.sample, P[i], grid='gist')[1], opti, pts)
+                    if len(loc) != N + 2 or any(l is None for l in loc): raise RuntimeError('coefficients of component %d not found' % i)
+                    for l, c in zip(loc, coef[i]): xv[l[0]] = c / l[1]
+                F = ca.Function('F', [vx, vp], [opti.f, opti.g, opti.lbg, opti.ubg])
+                f, g, lb, ub = [np.array(e).reshape(-1) for e in F(xv, pv)]
+                slack = sorted(np.round(np.concatenate([np.abs(g - lb)[lb == ub], (ub - g)[(lb != ub) & np.isfinite(ub)], (g - lb)[(lb != ub) & np.isfinite(lb)]]), 9).tolist())
+                out.append((float(f[0]), slack, nx))
+            (fa, sa, na), (fb, sb, nb) = out
+            ok = na == nb and abs(fa - fb) < 1e-9 and len(sa) == len(sb) and np.allclose(sa, sb, rtol=0, atol=1e-8)
+            res.append((cl, 'ok' if ok else 'mismatch', 'vector states: f %.9g, %d rows; scalar states: f %.9g, %d rows' % (fa, len(sa), fb, len(sb))))
+        except Exception as e:
+            res.append((cl, 'mismatch', 'a constraint on one component of a vector state cannot be transcribed: %s: %s' % (type(e).__name__, (str(e).splitlines() or [''])[-1][:160])))
     return res
 
 
